@@ -398,7 +398,12 @@ class Family:
 
     def _apply_filter_uncached(self, fexpr, rows: Tuple[Row, ...], fn: FuncInfo) -> Tuple[Row, ...]:
         pred = None
-        if isinstance(fexpr, ast.Lambda):
+        if isinstance(fexpr, ast.comprehension):
+            # (s for s in <table> if c1 if c2): the conjunction of the conditions
+            conds = list(fexpr.ifs)
+            pred = conds[0] if len(conds) == 1 else (ast.BoolOp(op=ast.And(), values=conds) if conds else ast.Constant(value=True))
+            param, mod = fexpr.target.id, fn.module
+        elif isinstance(fexpr, ast.Lambda):
             pred, param, mod = fexpr.body, fexpr.args.args[0].arg, fn.module
         else:
             c = chain(fexpr)
@@ -442,8 +447,24 @@ class Family:
                     tv[tgt.id] = te
                     loc["tablevars"] = tv
                 return None
+        # result += self._sensors_battery
+        if isinstance(node, ast.AugAssign) and isinstance(node.target, ast.Name) and node.target.id in loc.get("tablevars", {}):
+            te = self._table_expr(node.value, st, loc)
+            if not isinstance(node.op, ast.Add) or te is None:
+                raise AnalysisError("update of the table variable %s is not understood: %s (%s)" % (node.target.id, norm(node), fn.loc(node)))
+            tv = dict(loc["tablevars"])
+            tv[node.target.id] = list(tv[node.target.id]) + te
+            loc["tablevars"] = tv
+            return None
         for attr, value, kind in stores:
             if value is None:
+                continue
+            if kind == "aug" and (attr in st.tables or attr.startswith("_sensors")):
+                te = self._table_expr(value, st, loc)
+                if te is None or attr not in st.tables:
+                    raise AnalysisError("update of %s is not understood: %s (%s)" % (attr, norm(node), fn.loc(node)))
+                st.tables[attr] = tuple(st.tables[attr]) + tuple(r for _, rows in te for r in rows)
+                st.versions[attr] = st.versions.get(attr, 0) + 1
                 continue
             if attr in st.flags or attr.startswith("_has_"):
                 if isinstance(value, ast.Constant) and isinstance(value.value, bool):
@@ -461,6 +482,13 @@ class Family:
                     if te is None or len(te) != 1:
                         raise AnalysisError("filtered source %s is not a known table (%s)" % (norm(src), fn.loc(node)))
                     st.tables[attr] = self._apply_filter(f, te[0][1], fn)
+                    st.versions[attr] = st.versions.get(attr, 0) + 1
+                elif _comprehension_filter(value) is not None:
+                    gen = _comprehension_filter(value)
+                    te = self._table_expr(gen.iter, st, loc)
+                    if te is None or len(te) != 1:
+                        raise AnalysisError("filtered source %s is not a known table (%s)" % (norm(gen.iter), fn.loc(node)))
+                    st.tables[attr] = self._apply_filter(gen, te[0][1], fn)
                     st.versions[attr] = st.versions.get(attr, 0) + 1
                 else:
                     te = self._table_expr(value, st, loc)
@@ -529,3 +557,20 @@ class Family:
         if res is None:
             raise AnalysisError("sensors() has no feasible path")
         return res
+
+
+def _comprehension_filter(value: ast.expr) -> Optional[ast.comprehension]:
+    """tuple(s for s in T if c) / tuple([s for s in T if c]) / [s for s in T if c]: the single generator, when the
+    element is the loop variable itself (a pure filter)."""
+    comp = None
+    if isinstance(value, ast.Call) and isinstance(value.func, ast.Name) and value.func.id in ("tuple", "list") and len(value.args) == 1 \
+            and isinstance(value.args[0], (ast.GeneratorExp, ast.ListComp)):
+        comp = value.args[0]
+    elif isinstance(value, ast.ListComp):
+        comp = value
+    if comp is None or len(comp.generators) != 1:
+        return None
+    g = comp.generators[0]
+    if not (isinstance(g.target, ast.Name) and isinstance(comp.elt, ast.Name) and comp.elt.id == g.target.id) or g.is_async:
+        return None
+    return g
